@@ -13,7 +13,7 @@ def hook_commits():
 CHECKS = {
  "C01": dict(cat="exploration", tech="bounded exhaustive enumeration of the configuration lattice on the real code (72 configurations x key/input alphabets), equality + reference model",
    text="Every (key,input,version) of the alphabets is hashed by every configuration of the complete lattice (6 cache configurations x 12 VM flag sets, both dataset initialisers) on the reduced-geometry build and by 42 configurations at production size; all digests must agree with each other and with the independent specification model. Exhaustive over configurations, bounded over inputs.",
-   note="Same sources with smaller memory constants for the large product (profile 'mini'); LARGE_PAGES variants not exercised; inputs are a finite alphabet.", ref="3/C01"),
+   note="Same sources with smaller memory constants for the large product (profile 'mini'); the LARGE_PAGES variants of all 72 configurations run with the harness answering MAP_HUGETLB requests (no huge pages in the sandbox); inputs are a finite alphabet.", ref="3/C01"),
  "C02": dict(cat="exploration", tech="bounded exhaustive enumeration against an independent executable specification model, with intermediates",
    text="Digest of the public call == independent reading of doc/specs.md for every (key,input,version) of the alphabets, plus all cache bytes, the 8 SuperscalarHash programs, dataset items, generated program bytes and the register file after each program; repeated on clang, ASan/UBSan and portable builds in separate processes (determinism across builds).",
    note="The model is validated against RFC 7693, FIPS-197, RFC 9106 and the published RandomX vectors at setup; host IEEE-754 arithmetic is trusted.", ref="3/C02"),
